@@ -15,8 +15,11 @@ import GqlProofs.Parser.CompleteSchemaTop
   `Print.printSchema` (op `unparses`); plus theorems about the PARSER MODEL
   (`parseSchemaSrc`, `parseSchemas`: ops `ps` / `pss`): the built-in flag, the merge, and
   soundness — every accepted non-empty document without literal-named enum values is derivable
-  and its tree unparses to a canonical form of the input (`C06_parse_sound`, `C06_parse_sound_<nt>`;
-  as for C05 the canonical form is that of a derivation, see the FULL STATEMENT note in C05.lean).
+  and its tree unparses to a canonical form of the input (`C06_parse_sound`, `C06_parse_sound_<nt>`),
+  completeness — every lexable input whose token sequence is derivable is accepted, and the unparse
+  of the tree is the canonical output of EVERY derivation (`C06_parse_complete_canonical`,
+  `C06_parse_complete_<nt>`) — and their consequences `C06_accepts_exactly`, `C06_canonical_unique`,
+  `C06_parse_sound_canonical` (with the recogniser's `canonical`), `C06_accepts_iff_recognises`.
   The tie to the real parser is the check `C06` (harness/internal/props/grammarcheck.go).
 -/
 open Gql Gql.Lexer Gql.Grammar Gql.Parser Gql.Print
